@@ -65,29 +65,75 @@ class Stats(object):
         self.probes[name] = self.probes.get(name, 0) + n
 
 
+def load_regress(prop):
+    import glob
+    out = []
+    for path in sorted(glob.glob(os.path.join(core.VERIF_DIR, 'regress', prop, '*.json'))):
+        with open(path) as f:
+            out.append((path, json.load(f)))
+    return out
+
+
+def engine_module(name):
+    import importlib
+    return importlib.import_module('sim.' + name)
+
+
 def check_main(prop, tier, engine, engine_name, families, level, rule, assumptions, account,
                extra_cov=None, pool_kwargs=None, design_ref=None):
-    """families: list of (family, quick_count, thorough_count). account(stats, plan, trace) updates
-    counters from one executed run."""
+    """families: list of (family, quick_count, thorough_count[, engine name]). account(stats, plan,
+    trace) updates counters from one executed run. A family may name another engine than the
+    check's main one (C08 takes one scenario from defsim)."""
     t0 = time.time()
     seed = core.master_seed()
     print('VERIF_SEED=%d property=%s tier=%s repo=%s jobs=%d' % (seed, prop, tier, core.REPO, core.jobs()))
     sys.stdout.flush()
     rep = core.Report(prop)
-    pool, pinfo = build_pool(seed, tier, **(pool_kwargs or {}))
-    print('pool: %s (%.1fs)' % (json.dumps(pinfo)[:300], time.time() - t0))
-    for mm in pinfo['pool_mismatch']:
-        print('POOL-MISMATCH %s' % json.dumps(mm)[:300])
+    main_engine = engine
+    if getattr(main_engine, 'NEEDS_POOL', True):
+        pool, pinfo = build_pool(seed, tier, **(pool_kwargs or {}))
+        print('pool: %s (%.1fs)' % (json.dumps(pinfo)[:300], time.time() - t0))
+        for mm in pinfo['pool_mismatch']:
+            print('POOL-MISMATCH %s' % json.dumps(mm)[:300])
+    else:
+        pool, pinfo = [], {'note': 'this engine writes its own messages (bufrgen) per run; no shared pool'}
     stats = Stats()
-    if hasattr(engine, 'prepare_pool'):
-        pool = engine.prepare_pool(pool)
+    if hasattr(main_engine, 'prepare_pool'):
+        pool = main_engine.prepare_pool(pool)
         print('engine pool: %d messages (%.1fs)' % (len(pool), time.time() - t0))
-    for fam, qn, tn in families:
+    # regression corpus: minimised histories of defects that were repaired (or of seeded changes that
+    # were once missed); re-executed first on every run
+    reg = load_regress(prop)
+    if reg:
+        t1 = time.time()
+        nv = 0
+        by_engine = {}
+        for path, body in reg:
+            by_engine.setdefault(body['plan']['engine'], []).append((path, body))
+        for en, group in sorted(by_engine.items()):
+            eng = engine_module(en)
+            res = core.pmap(en, [b['plan'] for _p, b in group], limit=180)
+            for (path, body), (st, tr) in zip(group, res):
+                stats.evaluations += 1
+                stats.by_family['regress'] = stats.by_family.get('regress', 0) + 1
+                if st != 'ok':
+                    rep.add_harness('regress %s: %s' % (path, tr))
+                    continue
+                for sig in eng.oracle(body['plan'], tr):
+                    if sig.get('property') == prop:
+                        nv += 1
+                        rep.add(sig, body['plan'], {'VERIF_SEED': seed, 'run_seed': body['plan'].get('seed', 0),
+                                                    'family': 'regress', 'regress_file': os.path.basename(path)})
+        print('family %-11s runs=%d alarms=%d (%.1fs)' % ('regress', len(reg), nv, time.time() - t1))
+    for famspec in families:
+        fam, qn, tn = famspec[:3]
+        engine_name_f = famspec[3] if len(famspec) > 3 else engine_name
+        engine = engine_module(engine_name_f)
         n = qn if tier == 'quick' else tn
         if not n:
             continue
         t1 = time.time()
-        runs = run_family(engine, engine_name, fam, n, seed, pool, tier)
+        runs = run_family(engine, engine_name_f, fam, n, seed, pool, tier)
         t2 = time.time()
         if hasattr(engine, 'before_oracle'):
             engine.before_oracle(runs)
@@ -114,6 +160,8 @@ def check_main(prop, tier, engine, engine_name, families, level, rule, assumptio
         sys.stdout.flush()
 
     def shrink_one(sig, plan):
+        engine = engine_module(plan['engine'])
+
         def still(p):
             if not engine.valid(p):
                 return False
